@@ -915,10 +915,15 @@ class DestHandler:
             self._params.acked_params.last_start_offset = offset
             self._params.acked_params.last_end_offset = offset + data_len
         if offset + data_len <= self._params.acked_params.last_start_offset:
-            # Might be a re-requested FD PDU.
-            self._params.acked_params.lost_seg_tracker.remove_lost_segment(
-                (offset, offset + data_len)
-            )
+            # Might be a re-requested FD PDU. It can overlap the boundaries of tracked lost
+            # segments (duplicated, re-ordered or differently segmented data), so only the parts
+            # which are actually tracked are removed.
+            tracker = self._params.acked_params.lost_seg_tracker
+            for seg_start, seg_end in list(tracker.lost_segments.items()):
+                start = max(seg_start, offset)
+                end = min(seg_end, offset + data_len)
+                if start < end:
+                    tracker.remove_lost_segment((start, end))
 
     def _deferred_lost_segment_handling(self) -> None:
         if not self._params.acked_params.deferred_lost_segment_detection_active:
